@@ -20,7 +20,7 @@ class GateError(Exception):
 
 
 B_RE = re.compile(r'^/\*@([BH]) (\S+) (\d+) (\d+) (.*)\*/$', re.S)
-RW_RE = re.compile(r'^/\*~(\w+):([A-Za-z0-9+/=]*)~\*/$')
+RW_RE = re.compile(r'^/\*~([\w+]+):([A-Za-z0-9+/=]*)~\*/$')
 
 
 def split_glued(texts):
